@@ -462,7 +462,7 @@ fn main() {
     let mut rep = Report::new(
         "viewmc",
         "C13",
-        "payloads of length L in 0..5 (quick) / 0..7 (thorough), never at offset 0 of their source, followed by other bytes or ending exactly at the end of the source, on 8 source kinds (Vec, file uncut, file cut <4 KiB, file cut >=4 KiB mmap, background decoder identity and zstd, content #2 of a raw and of a compressed cluster through the container API); every chain of nested cuts (o1,s1) >= (o2,s2) >= (o3,s3) up to depth 3; on every view: size(), get_slice of every sub-range on the slice and on the converted region, and 4 stream conversion paths x every composition of the length into read sizes with size()/offset()/size_left() after every read, a zero-length read before every read and at the end (returns 0, moves nothing) and an over-long read at the end, and the same walk with read_exact for every part but the last and read_to_end for the rest; plus one 5000-byte payload per source with a reduced cut set and one 70000-byte payload per source with slices and reads of 65535/65536/65537+ bytes on the region, a slice, a nested slice and the region made from it; a decoder scripted to stall after its first 4096 bytes with the first access deep in the data; two views of one source read alternately (all 6 interleavings of 2+2 reads) at distances {0,10,1023,1024,1025,2048,4096} x read sizes {1,10,1023,1024}; non-trivial = view of at least one byte; distinct by (source, L, chain)",
+        "payloads of length L in 0..5 (quick) / 0..7 (thorough), never at offset 0 of their source, followed by other bytes or ending exactly at the end of the source, on 8 source kinds (Vec, file uncut, file cut <4 KiB, file cut >=4 KiB mmap, background decoder identity and zstd, content #2 of a raw and of a compressed cluster through the container API); every chain of nested cuts (o1,s1) >= (o2,s2) >= (o3,s3) up to depth 3; on every view: size(), get_slice of every sub-range on the slice and on the converted region, and 4 stream conversion paths x every composition of the length into read sizes with size()/offset()/size_left() after every read, a zero-length read before every read and at the end (returns 0, moves nothing) and an over-long read at the end, and the same walk with read_exact for every part but the last and read_to_end for the rest; plus one 5000-byte payload per source with a reduced cut set and one 70000-byte payload per source with slices and reads of 65535/65536/65537+ bytes on the region, a slice, a nested slice and the region made from it; one 6 MiB incompressible content stored compressed (stored cluster above 4 MiB) in a file-backed pack; a decoder scripted to stall after its first 4096 bytes with the first access deep in the data; two views of one source read alternately (all 6 interleavings of 2+2 reads) at distances {0,10,1023,1024,1025,2048,4096} x read sizes {1,10,1023,1024}; non-trivial = view of at least one byte; distinct by (source, L, chain)",
     );
     rep.extra.insert("profile".into(), json!(profile));
     let dir = jbkmc::scratch_dir("view");
@@ -618,6 +618,47 @@ fn main() {
                         Err(p) => rep.violation(&format!("C13 panic {} [{kind:?}]", jbkmc::panic_site(&p)), &p, case),
                     }
                 }
+            }
+        }
+    }
+    // a content whose stored (compressed) form is above 4 MiB, in a file-backed pack
+    if replay.is_none() {
+        let case = json!({"engine":"viewmc","source":"ContainerCompBig","L":6 * 1024 * 1024 + 123,"profile":profile});
+        let _g = jbkmc::watchdog::guard(|| case.to_string());
+        let r = jbkmc::catch(|| -> Result<(), Fail> {
+            let fail = |k: &str, w: String| Fail { key: format!("stored cluster above 4 MiB: {k}"), what: w };
+            let big = jbkmc::gen::payload(6 * 1024 * 1024 + 123, Entropy::High, 9);
+            let p = dir.path().join("bigc.jbkc");
+            let up = camino::Utf8PathBuf::from_path_buf(p.clone()).unwrap();
+            let mut c = jbk::creator::ContentPackCreator::new(&up, jbk::PackId::from(1), jbk::VendorId::from(VENDOR), Default::default(), Comp::Zstd(3).to_jbk()).map_err(|e| fail("creation", e.to_string()))?;
+            for b in [jbkmc::gen::payload(3000, Entropy::Low, 1), big.clone(), jbkmc::gen::payload(5000, Entropy::Low, 2)] {
+                c.add_content(Box::new(std::io::Cursor::new(b)), Hint::Yes.to_jbk()).map_err(|e| fail("creation", e.to_string()))?;
+            }
+            c.finalize().map_err(|e| fail("creation", e.to_string()))?;
+            let pack = jbk::reader::ContentPack::new(jbk::Reader::from(jbk::FileSource::open(&p).map_err(|e| fail("open", e.to_string()))?)).map_err(|e| fail("open", e.to_string()))?;
+            let region = pack.get_content(jbk::ContentIdx::from(1)).map_err(|e| fail("get_content", e.to_string()))?.ok_or_else(|| fail("get_content", "none".into()))?;
+            if region.size().into_u64() != big.len() as u64 {
+                return Err(fail("size()", format!("{}", region.size().into_u64())));
+            }
+            for (o, n) in [(0usize, 100usize), (4 * 1024 * 1024 - 5, 10), (big.len() - 123, 123), (1, 70_000)] {
+                let a = region.get_slice(jbk::Offset::new(o as u64), n).map_err(|e| fail("get_slice error", format!("({o},{n}): {e}")))?;
+                if &a[..] != &big[o..o + n] {
+                    return Err(fail("get_slice yields other bytes", format!("({o},{n})")));
+                }
+            }
+            check_stream(region.stream(), &big, &[4096, 4 * 1024 * 1024, big.len() - 4096 - 4 * 1024 * 1024], "stored cluster above 4 MiB: region.stream()")?;
+            let cut = region.cut(jbk::Offset::new(4 * 1024 * 1024), jbk::Size::new(1000));
+            check_stream(cut.stream(), &big[4 * 1024 * 1024..4 * 1024 * 1024 + 1000], &[1000], "stored cluster above 4 MiB: cut.stream()")
+        });
+        match r {
+            Ok(Ok(())) => rep.case(Some("ContainerCompBig"), "agree(stored cluster above 4 MiB)"),
+            Ok(Err(f)) => {
+                rep.case(Some("ContainerCompBig"), "violation");
+                rep.violation(&format!("C13 {} [ContainerCompBig]", f.key), &f.what, case);
+            }
+            Err(p) => {
+                rep.case(Some("ContainerCompBig"), "panic");
+                rep.violation(&format!("C13 panic {} [ContainerCompBig]", jbkmc::panic_site(&p)), &p, case);
             }
         }
     }
